@@ -505,6 +505,8 @@ public:
             return -1;
         if (!bytes)
             return 0;
+        if (iovcnt() > iov->capacity - iov->iov_begin)
+            return -1;  // not enough iovs[] space in `iov`
         iov->resize(iovcnt());
         auto vi = iov->view();
         auto va = view();
@@ -599,6 +601,8 @@ public:
             return -1;
         if (!bytes)
             return 0;
+        if (iovcnt() > iov->capacity - iov->iov_begin)
+            return -1;  // not enough iovs[] space in `iov`
         iov->resize(iovcnt());
         auto vi = iov->view();
         auto va = view();
